@@ -65,6 +65,57 @@ class RecorderNoSet:
         return type(self).VALUE
 
 
+class WithSetterProp(F.SupportRemoteGetState):
+    """no __setstate__; a property with a setter is named like a key of the instance dictionary: standard unpickling
+    puts the dictionary part of a state straight into __dict__ and never goes through the setter"""
+
+    def __init__(self, percent):
+        self.rate = percent
+
+    @property
+    def rate(self):
+        return self.__dict__['rate']
+
+    @rate.setter
+    def rate(self, percent):
+        self.__dict__['rate'] = percent / 100.0
+
+    def __getstate__(self, remote=False):
+        return dict(self.__dict__)
+
+
+class WithReadOnlyProp(F.SupportRemoteGetState):
+    def __init__(self, v):
+        self.__dict__['limit'] = v
+
+    @property
+    def limit(self):
+        return self.__dict__['limit']
+
+    def __getstate__(self, remote=False):
+        return dict(self.__dict__)
+
+
+def descriptor_states(ctx):
+    """opt-in classes without __setstate__ whose attributes are guarded by descriptors"""
+    import pickle
+    from pyworkers import remote_pickle
+    for make in (lambda: WithSetterProp(25), lambda: WithReadOnlyProp(3), lambda: [WithSetterProp(50), WithReadOnlyProp(4)]):
+        g = make()
+        for remote in (True, False):
+            def canon(x):
+                xs = x if isinstance(x, list) else [x]
+                return [(type(o).__name__, sorted(vars(o).items())) for o in xs]
+            want = canon(pickle.loads(pickle.dumps(g, protocol=4)))
+            try:
+                got = canon(remote_pickle.loads(remote_pickle.dumps(g, remote=remote)))
+            except BaseException as e:  # noqa
+                got = ('error', type(e).__name__, str(e)[:80])
+            ctx.case(('descriptor-state', repr(want), remote), True, sample={'case': 'opt-in class without __setstate__, attribute guarded by a property', 'remote': remote, 'restored': repr(got)[:120]} if remote else None)
+            if got != want:
+                ctx.fail('restore-differs:descriptor', f'remote_pickle (remote={remote}) restores {got!r}, standard pickle restores {want!r}', {'kind': 'descriptor_state', 'remote': remote})
+
+
 def _plain(v):
     """ordered dictionaries compare equal to plain ones: the kind of mapping handed to __setstate__ is not observable by =="""
     if isinstance(v, dict):
@@ -129,9 +180,16 @@ def main(ctx: Ctx):
     for i, g in enumerate(graphs):
         check_graph(ctx, g, model[i] if model else None, i)
     unusual_states(ctx)
+    descriptor_states(ctx)
 
 
 def replay(case):
+    if case.get('kind') == 'descriptor_state':
+        class C:
+            def case(self, *a, **k): print('observed', k.get('sample'))
+            def fail(self, sig, what, desc): print('FAIL', sig, what)
+        descriptor_states(C())
+        return
     if case.get('kind') == 'unusual_state':
         class C:
             def case(self, *a, **k): pass
